@@ -24,6 +24,7 @@ struct Sess {
 	stats: Option<Arc<DecStats>>,
 	first_reported: bool,
 	exited_logged: bool,
+	clock: Option<kira::clock::ClockHandle>,
 }
 
 /// wait until the decoder thread is parked or has released its decoder
@@ -98,7 +99,10 @@ fn run_scenario(sc: &Value, t: &mut Tracer) {
 		stats: None,
 		first_reported: false,
 		exited_logged: false,
+		clock: None,
 	};
+	// (a clock for WaitGone: created now, so that the audio thread has picked it up long before its handle is dropped)
+	s.clock = s.sim.as_mut().and_then(|sim| sim.manager.add_clock(kira::clock::ClockSpeed::TicksPerSecond(1.0)).ok());
 	let mut discarded = false;
 	for step in sc["steps"].as_array().unwrap() {
 		let ok = match step["act"].as_str().unwrap() {
@@ -180,6 +184,18 @@ fn run_scenario(sc: &Value, t: &mut Tracer) {
 				if let Some(h) = s.h.as_mut() {
 					h.pause(Tween { start_time: StartTime::Immediate, duration: Duration::ZERO, easing: kira::Easing::Linear });
 					t.ev(json!({"a": "pause"}));
+				}
+				true
+			}
+			"WaitGone" => {
+				// resume at a time of a clock whose handle is dropped at once: the wait can never end
+				if let (Some(h), Some(clock)) = (s.h.as_mut(), s.clock.take()) {
+					h.resume_at(
+						StartTime::ClockTime(clock.time() + 1000),
+						Tween { start_time: StartTime::Immediate, duration: Duration::ZERO, easing: kira::Easing::Linear },
+					);
+					drop(clock);
+					t.ev(json!({"a": "waitgone"}));
 				}
 				true
 			}
